@@ -17,25 +17,30 @@
   changes nothing and reaches no handler (`undecodable_inert`); what a frame makes the server
   store is bounded by item counts that do not depend on any declared number (`bounded_reserve`).
 
-  What is NOT proved (full noninterference
-    `observeOthers (run (interleave hostile others)) = observeOthers (run others)`):
-  the second unwinding lemma — "inputs of the others produce the same outputs and view-equal
-  successors from view-equal states" — is false for `view` as literal equality of outputs, for
-  two reasons that are properties of the model (and of the code), not of the proof:
-    1. session ids are allocated from one global counter (`nextSid`; in the code: random ids):
-       a hostile CONNECT shifts the *names* of the sessions the others get afterwards, so
-       outputs agree only up to a renaming of session ids (the harness renames by order of first
-       appearance);
-    2. the handler scripts are indexed by global invocation counters (`nConn`, `nEv`, `nDisc`):
-       a hostile CONNECT / EVENT / DISCONNECT that reaches a handler advances them, so the
-       *scripted* outcomes of the others' later handler calls shift.  With outcome functions
-       that do not depend on the counters (e.g. constant scripts) only reason 1 remains.
-  Closing the gap needs `step` to be shown equivariant under renamings of session ids; the
-  statement would be `observeOthers ρ (run …) = observeOthers (run …)` for the renaming `ρ`
-  induced by the two histories.  That is not done here.  `step_confined` is the first unwinding
-  lemma at full strength.
+  Noninterference (`noninterference`, `output_consistent`): for handler scripts whose outcomes do
+  not depend on the global invocation counters (`Script.Stable`, what the C12 harness uses), any
+  interleaving of the hostile transport's inputs (its frames — arbitrary values, arbitrary
+  decoder — and engine.io opening / losing it) with frames of other transports and engine.io
+  opening other transports: what the others' inputs output in the mixed run is *exactly* what
+  they output in a run without the hostile transport in which the id generator skips some ids
+  (`runSkip`; the ids the hostile CONNECTs consumed) — and the final states agree outside `t`.
+  The two obstacles named before are handled like this: the invocation counters by `Stable`;
+  the global id counter not by renaming outputs afterwards but by letting the reference run's id
+  generator skip ids — `generate_id()` only promises fresh ids (DESIGN §4), so "a hostile-free run
+  with another sequence of fresh ids" is a hostile-free run.  With no skipped ids the reference is
+  literally `run` (`runSkip_zero`).
+
+  Remaining obligations, NOT proved:
+   * bystander inputs other than frames / `eioConnect`: application API calls (emit, call,
+     disconnect(), rooms, sessions), `settle` (so with `async_handlers = True` the handler
+     invocations, which happen at `settle`, are not covered) and `eioLost t'` of a bystander.
+     For `eioLost t'` literal equality is in fact false: the order in which the namespaces of
+     `t'` get their disconnect handler is the order of `namespacesOf rooms`, which depends on
+     whether the hostile transport was the first to use a namespace (so equality holds only up
+     to a permutation of that step's outputs);
+   * scripts that depend on the invocation counters.
 -/
-import Sio.Lemmas.ServerBound
+import Sio.Lemmas.ServerNIMain
 namespace Sio.C12
 open Sio Sio.Server Sio.Rooms
 
@@ -136,6 +141,75 @@ example : eioOf demo0.rooms nsRoot (sidName 1) = some tB := by decide
     disconnects and sessions of the other clients are proved. -/
 theorem still_serving {s : Srv} (h : Server.WF s) (is : List Input) :
     Server.WF (run dec cfg s is).1 := h.run dec cfg is
+
+/-! ### noninterference -/
+
+theorem cfg0_stable : cfg0.script.Stable := ⟨fun _ _ => rfl, fun _ _ => rfl, fun _ _ => rfl⟩
+
+/-- **Second unwinding lemma** (`output_consistent`): an input of another transport — a frame
+    with any content, or engine.io opening it — produces the same outputs from `s₁` and `s₂`
+    whenever the two states agree outside `t` (`strip t`), and the successors agree outside `t`
+    again.  Handler outcomes must not depend on the invocation counters (`Stable`). -/
+theorem output_consistent (hst : cfg.script.Stable) {s₁ s₂ : Srv} (h₁ : Server.WF s₁)
+    (h₂ : Server.WF s₂) {t : Eio} (hs : strip t s₁ = strip t s₂) {i : Input}
+    (hi : ofOther t i = true) :
+    (step dec cfg s₁ i).2 = (step dec cfg s₂ i).2 ∧
+    strip t (step dec cfg s₁ i).1 = strip t (step dec cfg s₂ i).1 := by
+  have l1 := loc_step (dec := dec) hst h₁ hi
+  have l2 := loc_step (dec := dec) hst h₂ hi
+  rw [hs] at l1
+  exact l1.trans l2.symm
+
+example : strip tA (step dec0 cfg0 demo0 (.frame tA (.str ['d']))).1 = strip tA demo0 ∧
+    ofOther tA (.frame tB (.str ['a'])) = true := ⟨by rfl, rfl⟩
+
+/-- **First unwinding lemma**, for all of the hostile transport's inputs: they change the state
+    outside `t` at most by advancing the session-id counter. -/
+theorem hostile_invisible {s : Srv} (h : Server.WF s) {t : Eio} {i : Input} (hi : ofT t i = true) :
+    ∃ d, strip t (step dec cfg s i).1 = bump d (strip t s) :=
+  strip_hostile h dec cfg hi
+
+/-- **Noninterference.**  `mix` is any interleaving of inputs of the hostile transport `t` with
+    inputs of other transports.  There is a schedule of id skips such that the run of the others'
+    inputs alone, with those skips (`runSkip`), outputs exactly what the others' inputs output in
+    the mixed run (`othersOuts`, a sublist of the mixed run's outputs in order), and ends in a
+    state that agrees with the mixed run's outside `t`; every packet output by the hostile
+    inputs goes to `t`, and every output of the mixed run is one or the other. -/
+theorem noninterference (hst : cfg.script.Stable) {s : Srv} (h : Server.WF s) (t : Eio)
+    (mix : List Input) (hmix : ∀ i ∈ mix, ofT t i = true ∨ ofOther t i = true) :
+    ∃ skips : List Nat, skips.length = (mix.filter (ofOther t)).length ∧
+      othersOuts dec cfg t s mix =
+        (runSkip dec cfg s (skips.zip (mix.filter (ofOther t)))).2 ∧
+      (∃ d, strip t (run dec cfg s mix).1 =
+        strip t (bump d (runSkip dec cfg s (skips.zip (mix.filter (ofOther t)))).1)) ∧
+      List.Sublist (othersOuts dec cfg t s mix) (run dec cfg s mix).2 ∧
+      (∀ o ∈ (run dec cfg s mix).2,
+        o ∈ hostileOuts dec cfg t s mix ∨ o ∈ othersOuts dec cfg t s mix) ∧
+      (∀ o ∈ hostileOuts dec cfg t s mix, ∀ t' p, o = .send t' p → t' = t) := by
+  obtain ⟨skips, h1, h2, h3⟩ := ni_sim (dec := dec) hst t mix hmix s s h h ⟨0, rfl⟩
+  exact ⟨skips, h1, h2, h3, othersOuts_sublist dec cfg t mix s,
+    fun o ho => (mem_run_outs dec cfg t mix s o).mp ho, hostileOuts_confined t mix s h⟩
+
+/-- When the hostile inputs consumed no session id the reference run is literally `run`. -/
+theorem runSkip_no_skips (s : Srv) (is : List Input) :
+    runSkip dec cfg s (is.map (fun i => (0, i))) = run dec cfg s is := runSkip_zero dec cfg s is
+
+-- A disconnects, reconnects (consuming the id `s2`), sends garbage and a giant binary header;
+-- meanwhile transport C is opened and connects, and B acknowledges its outstanding callback
+def tC : Eio := ['C']
+def mix0 : List Input :=
+  [.frame tA (.str ['d']), .frame tA (.str ['c']), .eioConnect tC, .frame tA (.str ['x', '1']),
+   .frame tC (.str ['c']), .frame tA (.str ['h']), .frame tB (.str ['a']), .eioLost tA ['q']]
+example : ∀ i ∈ mix0, ofT tA i = true ∨ ofOther tA i = true := by decide
+example : mix0.filter (ofOther tA) = [.eioConnect tC, .frame tC (.str ['c']), .frame tB (.str ['a'])] := by
+  rfl
+-- the others' outputs in the mixed run = the hostile-free run in which one id is skipped
+example : othersOuts dec0 cfg0 tA demo0 mix0 =
+    (runSkip dec0 cfg0 demo0 [(1, .eioConnect tC), (0, .frame tC (.str ['c'])),
+      (0, .frame tB (.str ['a']))]).2 := by rfl
+example : othersOuts dec0 cfg0 tA demo0 mix0 =
+    [.invoke (.fn nsRoot "connect".toList) [.str (sidName 3)], .send tC (pktConnect nsRoot (sidName 3)),
+     .callback 7 []] := by rfl
 
 /-! ### `undecodable_inert` -/
 
